@@ -159,6 +159,43 @@ def _same18(x):
     return x
 
 
+class _FalsyKey:
+    """a key function object whose truth value is False (a memoising callable whose len() is the size of its still empty memo, a
+    callable with __bool__): it is still THE key function"""
+    def __init__(self, table, style):
+        self.table, self.style, self.memo = table, style, {}
+
+    def __call__(self, x):
+        return self.table[x]
+
+    def __len__(self):
+        if self.style == 'len0':
+            return 0
+        raise TypeError('no len')
+
+    def __bool__(self):
+        return False
+
+
+def falsy_key_fn_family(ld, r, count):
+    fails = []
+    for _ in range(count):
+        n = r.randint(2, 7)
+        table = {i: r.randint(0, 4) for i in range(n)}
+        keyed = r.random() < 0.6
+        rev = r.random() < 0.4
+        base = ld.new({f'key{n - i}': i for i in range(n)} if keyed else list(range(n)))
+        try:
+            want = list(base.sort(lambda x: table[x], reverse=rev))
+            got = list(base.sort(_FalsyKey(table, r.choice(['len0', 'bool'])), reverse=rev))
+        except Exception as e:
+            fails.append(f'sort with a key function object whose truth value is False raised {type(e).__name__}: {e}'[:300])
+            continue
+        if got != want:
+            fails.append(f'sort(key_fn=<callable object with a false truth value>, reverse={rev}) over {"dict" if keyed else "list"} source with sort values {table}: {got}; the same key function as a plain function gives {want}')
+    return fails
+
+
 def custom_sort_fn(ld, r, count):
     """a custom sort_fn returning a sorted permutation must give the same result as the default"""
     fails = []
@@ -222,6 +259,8 @@ def run(tier):
     for msg in group_ids_family(ld, common.rng_for('C18-gids'), 3000 if big else 300):
         res['failures'].append(dict(kind='program', summary=msg[:600]))
     res['coverage']['groupby_arbitrary_id_cases'] = 3000 if big else 300
+    for msg in falsy_key_fn_family(ld, common.rng_for('C18-falsykey'), 600 if big else 60):
+        res['failures'].append(dict(kind='program', summary=msg[:600]))
     res['coverage'].update(groupby_cases=len(gc), groupby_disagreements=len(bad),
                            groupby_refused=sum(1 for c in gc if c[2] is None))
     res['coverage']['evaluations'] = res['coverage']['programs'] + len(gc)
